@@ -76,9 +76,10 @@ typedef struct {
 	EVP_PKEY *pkey;		/* NULL for oct */
 	unsigned char *oct;
 	size_t octlen;
+	int padmode;		/* oct only: 1 = JWK "k" written with '=' padding, 2 = padding followed by further characters */
 } vh_key_t;
 
-/* generate; returns 0 on success.  spec: "oct:<len>", "rsa:<bits>", "rsapss:<bits>",
+/* generate; returns 0 on success.  spec: "oct:<len>", "octpad:<len>" / "octjunk:<len>" (same key, non-canonical spelling of k in the JWK), "rsa:<bits>", "rsapss:<bits>",
  * "ec:P-256|P-384|P-521|secp256k1", "okp:Ed25519|Ed448|X25519" */
 int vh_key_gen(vh_key_t *k, const char *spec, vh_rng_t *r);
 void vh_key_free(vh_key_t *k);
